@@ -61,11 +61,29 @@ def bufAfterRead (c : Conn) : Nat := if c.kind = Kind.post then c.buf + c.unread
 /-- the connection record after a successful `recv` -/
 def readRec (c : Conn) : Conn := { c with unread := false, unreadN := 0, readReady := false, buf := bufAfterRead c }
 
+/-- a complete request head has been read: the handler is called, and queues a reply (GET) or is content
+    (Expect: 100-continue); `MHD_queue_response` restarts the timer once more (same clock value) -/
+def replyRec (c : Conn) : Conn := { c with aware := true, replying := true }
+
 /-- the upload call of the scripted handler: takes the data (all of it, or one byte) … -/
 def callRec (c : Conn) : Conn := { c with aware := true, buf := bufAfterCall c }
 
 /-- … or takes all of it and suspends the connection -/
 def suspRec (c : Conn) : Conn := { c with aware := true, wantSusp := false, buf := 0 }
+
+/-- `MHD_connection_handle_write` for a replying connection and what `MHD_connection_handle_idle` makes of a
+    reply that is out completely.  Every send with progress — partial or not, in every sending state
+    (CONTINUE_SENDING, HEADERS_SENDING, NORMAL_BODY_READY, CHUNKED_BODY_READY, FOOTERS_SENDING; see
+    `Mhd.Gen.Tmo.activitySites`) — is followed by `MHD_update_last_activity_`. -/
+def finishRec (c : Conn) : Conn :=
+  { c with replying := false, kind := if c.kind = Kind.expect then Kind.post else Kind.none,
+           aware := if c.kind = Kind.expect then c.aware else false }
+
+def writeStep (v : Variant) (d : Daemon) (i : Id) : Daemon × List Event :=
+  let d1 := if i ∈ d.wset then updateLastActivity v d i else d
+  if i ∈ d.fset then
+    (d1.set i (finishRec (d1.c i)), if (d1.c i).kind = Kind.expect then [] else [Event.completed i])
+  else (d1, [])
 
 /-- `MHD_connection_handle_read` with data available, followed by the part of the state machine
     that calls the application (which consumes the data and may suspend the connection) -/
@@ -78,6 +96,7 @@ def readData (v : Variant) (d : Daemon) (i : Id) : Daemon × List Event :=
     if c2.wantSusp then
       (internalSuspend (d2.set i (suspRec c2)) i, [Event.suspended i])
     else (d2.set i (callRec c2), [])
+  else if c2.kind = Kind.get ∨ c2.kind = Kind.expect then (d2.set i (replyRec c2), [])
   else (d2, [])
 
 /-- `MHD_connection_close_` with a code other than TIMEOUT_REACHED -/
@@ -94,11 +113,19 @@ def eofCode (k : Kind) : Nat := match k with
   | .none => 0
   | _ => 5
 
+/-- the "fast track" of `call_handlers`: when the whole request was read in this call and the reply headers
+    are ready (state HEADERS_SENDING) the first send is attempted at once -/
+def fastTrack (v : Variant) (d : Daemon) (i : Id) : Daemon × List Event :=
+  -- (`i ∈ d.conns` always holds for a connection whose handler has just queued a reply)
+  if (d.c i).replying ∧ (d.c i).kind = Kind.get ∧ i ∈ d.conns then seq2 (writeStep v d i) (fun d => handleIdle d i)
+  else handleIdle d i
+
 /-- `call_handlers` in the select loop; `rReady` = the socket was in the read set -/
 def callHandlersSel0 (v : Variant) (d : Daemon) (i : Id) (rReady : Bool) : Daemon × List Event :=
   let c := d.c i
   if c.closed then handleIdle d i
-  else if rReady ∧ c.unread ∧ c.buf = 0 then seq2 (readData v d i) (fun d => handleIdle d i)
+  else if c.replying then seq2 (writeStep v d i) (fun d => handleIdle d i)
+  else if rReady ∧ c.unread ∧ c.buf = 0 then seq2 (readData v d i) (fun d => fastTrack v d i)
   else if rReady ∧ c.peerClosed ∧ c.buf = 0 then seq2 (closeOther d i (eofCode c.kind)) (fun d => handleIdle d i)
   else handleIdleP d i
 
@@ -205,6 +232,13 @@ inductive Op
   | send (i : Id)
   /-- the client sends one more byte of a request line that never ends -/
   | sendp (i : Id)
+  /-- (select loop) the client sends a complete GET, or the head of a POST with `Expect: 100-continue` -/
+  | get (i : Id) (expect : Bool)
+  /-- a round in which the sockets of the replying connections `ws` take more bytes and the replies of
+      `fs` are out completely afterwards -/
+  | roundw (ws fs : List Id)
+  /-- the client reads more bytes (the amount is not modelled: see `roundw`) -/
+  | allow (i : Id)
   /-- the client sends (the head of a POST and) k body bytes in one piece -/
   | sendn (i : Id) (k : Nat)
   /-- from now on the handler of `i` takes one upload byte per call -/
@@ -242,19 +276,25 @@ def clientClose (d : Daemon) (i : Id) : Daemon :=
 def step (v : Variant) (d : Daemon) : Op → Option (Daemon × List Event)
   | .arrive i => if i < maxConns ∧ i ∉ d.used then some (arrive d i, []) else none
   | .send i =>
-    if i ∈ d.used ∧ (d.c i).peerClosed = false ∧ (d.c i).kind ≠ Kind.frag
+    if i ∈ d.used ∧ (d.c i).peerClosed = false ∧ ((d.c i).kind = Kind.none ∨ (d.c i).kind = Kind.post)
     then some (clientData d i Kind.post, []) else none
+  | .get i e =>
+    if d.cfg.epoll = false ∧ i ∈ d.used ∧ (d.c i).peerClosed = false ∧ (d.c i).kind = Kind.none
+    then some (clientData (d.set i { (d.c i) with limited := true }) i (if e then Kind.expect else Kind.get), []) else none
+  | .allow i => if i ∈ d.used ∧ (d.c i).limited then some (d, []) else none
+  | .roundw ws fs => some (round v { d with wset := ws, fset := fs })
   | .sendn i k =>
-    if i ∈ d.used ∧ (d.c i).peerClosed = false ∧ (d.c i).kind ≠ Kind.frag ∧ 1 ≤ k ∧ k ≤ 8
+    if i ∈ d.used ∧ (d.c i).peerClosed = false ∧ ((d.c i).kind = Kind.none ∨ (d.c i).kind = Kind.post) ∧ 1 ≤ k ∧ k ≤ 8
     then some (clientData d i Kind.post k, []) else none
   | .slow i =>
     if i ∈ d.used ∧ (d.c i).wantSusp = false ∧ (d.c i).suspended = false
     then some (d.set i { (d.c i) with slow := true }, []) else none
   | .sendp i =>
-    if i ∈ d.used ∧ (d.c i).peerClosed = false ∧ (d.c i).kind ≠ Kind.post
+    if i ∈ d.used ∧ (d.c i).peerClosed = false ∧ ((d.c i).kind = Kind.none ∨ (d.c i).kind = Kind.frag)
     then some (clientData d i Kind.frag, []) else none
   | .cclose i =>
-    if i ∈ d.used ∧ (d.c i).peerClosed = false then some (clientClose d i, []) else none
+    if i ∈ d.used ∧ (d.c i).peerClosed = false ∧ (d.c i).kind ≠ Kind.get ∧ (d.c i).kind ≠ Kind.expect
+    then some (clientClose d i, []) else none
   | .tick ms => some ({ d with now := d.now + ms, back := d.back - ms }, [])
   | .tickback ms => if ms ≤ d.now then some ({ d with now := d.now - ms, back := d.back + ms }, []) else none
   | .setTimeout i s =>
@@ -262,7 +302,7 @@ def step (v : Variant) (d : Daemon) : Op → Option (Daemon × List Event)
   | .susp i => if i ∈ d.used ∧ (d.c i).slow = false then some (d.set i { (d.c i) with wantSusp := true }, []) else none
   | .resume i =>
     if d.started i ∧ (d.c i).suspended ∧ d.cfg.allowSuspend then some (resumeRequest d i, []) else none
-  | .round => some (round v d)
+  | .round => some (round v { d with wset := [], fset := [] })
 
 /-- state after a script (illegal operations are skipped, as the two executables do) -/
 def run (v : Variant) (d : Daemon) : List Op → Daemon
